@@ -233,6 +233,10 @@ def observe(case):
     try:
         mols = []
         for s in case['mols']:
+            if s == '<empty>':      # a placeholder molecule without atoms: the readers ignore such a component and must keep the roles of the others
+                from chython import MoleculeContainer
+                mols.append(MoleculeContainer())
+                continue
             m = smiles(s)
             m.kekule()
             if case.get('thiele'):
@@ -276,11 +280,16 @@ def observe(case):
                 m.remap({n: n + 10000 for n in list(m._atoms)})
                 m.remap({n: n - 10000 + shift for n in list(m._atoms)})
                 shift += len(m) + 3
-            rec['w'] = [[molproj(m) for m in obj.reactants], [molproj(m) for m in obj.reagents], [molproj(m) for m in obj.products]]
+            rec['w'] = [[molproj(m) for m in obj.reactants if len(m)], [molproj(m) for m in obj.reagents if len(m)], [molproj(m) for m in obj.products if len(m)]]
             for role in rec['w']:
                 for mp in role:
                     mp['name'] = []
-            back = roundtrip(obj, case['fmt'])
+            try:
+                back = roundtrip(obj, case['fmt'])
+            except ValueError:
+                if '<empty>' in case['mols']:      # V2000 and MRV writers refuse a molecule without atoms
+                    return {'skip': 'refused-empty-molecule'}
+                raise
             if back is None or hasattr(back, '_atoms'):
                 rec['exc'] = 'nothing-read-back'
             else:
@@ -468,6 +477,18 @@ def run(ck):
         for fmt in ('rdf', 'erdf', 'mrv'):
             cases.append({'key': f'rxn:{fmt}:{shape}:{k}', 'kind': 'rxn', 'fmt': fmt, 'shape': shape, 'mols': [rnd.choice(sel) for _ in range(sum(shape))], 'coords': k % 3 != 0,
                           'meta': {f'k{j}': rand_text(rnd, 10, alpha) for j in range(rnd.randint(0, 2))}, 'name': rand_text(rnd, 12, alpha) if k % 2 else '', 'rs': rnd.randrange(1 << 30)})
+    # reactions with a component that has no atoms, at every position of every role
+    for k, (shape, pos) in enumerate([((2, 0, 2), 2), ((2, 0, 2), 3), ((2, 0, 2), 0), ((2, 0, 2), 1), ((1, 2, 1), 1), ((1, 2, 1), 2), ((1, 0, 3), 1), ((1, 0, 3), 2), ((3, 1, 1), 2), ((2, 1, 2), 3)]):
+        mols = [rnd.choice(sel) for _ in range(sum(shape))]
+        mols[pos] = '<empty>'
+        for fmt in ('rdf', 'erdf', 'mrv'):
+            cases.append({'key': f'rxn:{fmt}:{shape}:empty-at-{pos}', 'kind': 'rxn', 'fmt': fmt, 'shape': shape, 'mols': mols, 'coords': False, 'meta': {}, 'name': '', 'rs': rnd.randrange(1 << 30)})
+    # more labelled atoms of one kind than one property line of a V2000 block holds (eight)
+    for s in ['[13CH3][13CH2][13CH2][13CH2][13CH2][13CH2][13CH2][13CH2][13CH2][13CH3]', '[2H]C([2H])([2H])C([2H])([2H])C([2H])([2H])C([2H])([2H])[2H]', '[CH2][CH][CH][CH][CH][CH][CH][CH][CH][CH2]',
+              '[13CH3][CH][13CH2][CH][13CH2][CH][13CH2][CH][13CH2][CH][13CH2][CH][13CH2][CH][13CH2][CH][13CH2][CH][13CH3]', '[Zr+4].[Zr+4].[Zr+4].[Zr+4].[Zr+4].[Zr+4].[Zr+4].[Zr+4].[Zr+4].[Si-4].[Si-4].[Si-4].[Si-4].[Si-4].[Si-4].[Si-4].[Si-4].[Si-4]',
+              '[18OH2].[18OH2].[18OH2].[18OH2].[18OH2].[18OH2].[18OH2].[18OH2].[18OH2].[18OH2].[18OH2].[18OH2].[18OH2].[18OH2].[18OH2].[18OH2].[18OH2]']:
+        for fmt in fmts:
+            cases.append({'key': f'mol:{fmt}:{s}:many-labels', 'kind': 'mol', 'fmt': fmt, 'mols': [s], 'coords': False, 'thiele': False, 'meta': {}, 'name': '', 'rs': rnd.randrange(1 << 30)})
     cases = ck.select('round-trips', cases)
     if cases:
         res = vlib.pmap('checks.c11', 'observe', cases)
